@@ -99,6 +99,9 @@ mutual
         pure (.redirErr k)
     | .list [.atom "specerr", w, st] => do pure (.specialErr ((← w.nat?) != 0) (← st.nat?))
     | .list [.atom "trapexit", b] => do pure (.trapExit (← toList b))
+    | .list [.atom "trapsig", b] => do pure (.trapSig (← toList b))
+    | .list [.atom "raise", n] => do pure (.raise (← n.nat?))
+    | .list [.atom "raiseerr"] => some .raiseErr
     | _ => none
 
   partial def toElifs : List Sx → Option (List (List Item × List Item))
